@@ -62,7 +62,10 @@ impl SizeManifest {
         header.validate()?;
 
         // Parse tags (between header and entries)
-        let mut tags = Vec::with_capacity(header.tag_count() as usize);
+        // Counts come from the (untrusted) header: never reserve more than the
+        // remaining input can hold (a tag is at least NUL + type = 3 bytes).
+        let remaining = data.len().saturating_sub(cursor.position() as usize);
+        let mut tags = Vec::with_capacity((header.tag_count() as usize).min(remaining / 3));
         for _ in 0..header.tag_count() {
             let tag =
                 InstallTag::read_options(&mut cursor, binrw::Endian::Big, header.entry_count())
@@ -71,7 +74,10 @@ impl SizeManifest {
         }
 
         // Parse entries
-        let mut entries = Vec::with_capacity(header.entry_count() as usize);
+        let remaining = data.len().saturating_sub(cursor.position() as usize);
+        let entry_size = SizeEntry::serialized_size(&header).max(1);
+        let mut entries =
+            Vec::with_capacity((header.entry_count() as usize).min(remaining / entry_size));
         for _ in 0..header.entry_count() {
             let entry = SizeEntry::read_options(&mut cursor, binrw::Endian::Big, &header)
                 .map_err(SizeError::from)?;
